@@ -25,7 +25,7 @@ TRUSTED = [
     "not-held, armed values); Go's sort.Sort, maps, mutex; UnsafePool (tag safepool) is observed only (C14)",
 ]
 THEOREMS = ["C18_finalize_at_most_once", "C18_release_at_most_once", "C18_finalize_exactly_once_by_close_partial",
-            "C18_release_exactly_once_after_finalize", "C18_close_order_reverse_mark",
+            "C18_release_exactly_once_after_finalize", "C18_close_order_reverse_mark", "C18_extraction_order_unique",
             "C18_never_finalized_while_reachable", "C18_killed_context_skips_finalizers_not_releases",
             "C18_killed_context_releases_exactly_once"]
 
@@ -152,6 +152,115 @@ def rand_world(rng):
     if not w.closed and rng.chance(3, 4):
         ops += [("AF",), ("finret",), ("AF", "discard"), ("AR",)]
     return ops
+
+
+def world_valid(ops):
+    """enabledness of the environment events (mirror of wstep's side conditions); used by the shrinker"""
+    dropped, held, armed, inreg, finflag, pending = set(), set(), set(), set(), {}, set()
+    closed = False
+    for o in ops:
+        t = o[0]
+        if t == "M":
+            k, fl = o[1], o[2]
+            if closed or (k in dropped and k not in held) or fl == 0:
+                return False
+            if k not in inreg:
+                armed.add(k)
+            inreg.add(k)
+            finflag[k] = (fl & 1) == 0
+        elif t == "drop":
+            dropped.add(o[1])
+        elif t == "res":
+            if o[1] not in held:
+                return False
+            dropped.discard(o[1])
+        elif t == "finret":
+            held = set()
+        elif t == "G":
+            k = o[1]
+            if not (k in dropped and k not in held and k in armed):
+                return False
+            armed.discard(k)
+            if k in inreg and not closed:
+                if not finflag[k]:
+                    finflag[k] = True
+                    pending.add(k)
+                else:
+                    inreg.discard(k)
+        elif t == "PF":
+            if closed:
+                return False
+            held |= pending
+            armed |= pending
+            pending = set()
+        elif t == "PR":
+            if closed:
+                return False
+        elif t == "AF":
+            if closed:
+                return False
+            if len(o) == 1:
+                held |= {k for k in inreg if not finflag[k]}
+            for k in inreg:
+                finflag[k] = True
+            pending = set()
+        elif t == "AR":
+            if closed:
+                return False
+            closed = True
+    return True
+
+
+def shrink_world(ops, still_fails):
+    """delta debugging on an environment-valid history: drop single events while the history stays valid and still fails"""
+    ops = list(ops)
+    changed = True
+    while changed:
+        changed = False
+        for i in range(len(ops)):
+            cand = ops[:i] + ops[i + 1:]
+            if cand and world_valid(cand) and still_fails(cand):
+                ops = cand
+                changed = True
+                break
+    return ops
+
+
+def shrink_free(ops, still_differs):
+    ops = list(ops)
+    changed = True
+    while changed:
+        changed = False
+        for i in range(len(ops)):
+            cand = ops[:i] + ops[i + 1:]
+            if cand and still_differs(cand):
+                ops = cand
+                changed = True
+                break
+    return ops
+
+
+def coq_crosscheck(ck, samples):
+    """Re-evaluate sampled histories inside Coq (vm_compute on the model itself, no extraction, no OCaml driver)
+    and compare with the lines the Go side produced.  samples: list of (pool ops, parsed outs)."""
+    def cop(o):
+        return {"M": lambda: "OMark %d %d" % (o[1], o[2]), "G": lambda: "OGoFin %d" % o[1], "PF": lambda: "OExtPF",
+                "PR": lambda: "OExtPR", "AF": lambda: "OExtAF", "AR": lambda: "OExtAR"}[o[0]]()
+
+    def cout(x):
+        vals, calls, pan = x
+        cs = [] if calls == "-" else ["(%d, %s)" % (int(c[:-1], 16), "true" if c[-1] == "+" else "false") for c in calls.split(",")]
+        return "mkOut [%s] [%s] %s" % ("; ".join(str(v) for v in vals), "; ".join(cs), "true" if pan else "false")
+    body = ["From Coq Require Import NArith List.", "From GV Require Import GC.ClonePool.", "Import ListNotations.", "Open Scope N_scope."]
+    for j, (ops, outs) in enumerate(samples):
+        body.append("Example c%d : run_ops pool0 [%s] = [%s].\nProof. vm_compute. reflexivity. Qed." %
+                    (j, "; ".join(cop(o) for o in ops), "; ".join(cout(x) for x in outs)))
+    d = os.path.join(ck.work, "coqcases")
+    os.makedirs(d, exist_ok=True)
+    with open(os.path.join(d, "Cases.v"), "w") as f:
+        f.write("\n".join(body) + "\n")
+    rc, so, se = vlib.sh(["coqc", "-R", os.path.join(vlib.COQ, "theories"), "GV", "Cases.v"], cwd=d, timeout=900)
+    return rc == 0, (so + se)[-800:]
 
 
 def pool_ops(ops):
@@ -309,6 +418,9 @@ def lua_program(rng):
                     expect.extend("gc:" + e[2] for e in reversed(inner) if e[2])
                 expect.extend("rel:" + e[0] for e in reversed(inner) if e[3])
                 expect.append("l:" + {"ok": "done", "error": "error", "kill": "killed"}[kind])
+            elif r < 95 and depth == 0:
+                # everything is reachable through globals: forcing the collector must not finalise anything
+                src.append("collectgarbage()")
             else:
                 m = fresh("m")
                 src.append("%slog('%s')" % (indent, m))
@@ -330,6 +442,15 @@ LUA_FIXED = [
      ["close", "l:gc:a"]),
     ("gc-error-does-not-stop-others", "a = setmetatable({}, gcmt('a'))\nb = setmetatable({}, {__gc = function() error('x') end})\nc = setmetatable({}, gcmt('c'))\n", "",
      ["close", "gc:c", "gc:a"]),
+    # finalisers of values created in a limited context run inside it and are charged to it
+    ("charged-to-owning-context", "local function run(work)\n  local ctx = runtime.callcontext({kill={cpu=1000000}}, function()\n"
+     "    x = setmetatable({}, {__gc=function() for i=1,work do end log('gc') end})\n  end)\n  return ctx.used.cpu\nend\n"
+     "local a, b = run(10), run(10000)\nlog(tostring(b - a >= 9000))\n", "",
+     ["l:gc", "l:gc", "l:true", "close"]),
+    # a finaliser that exhausts its context's budget kills that context, not the host; releases still happen
+    ("finalizer-overruns-budget", "local ctx = runtime.callcontext({kill={cpu=5000}}, function()\n"
+     "  u = mkud('u', {__gc=function() log('gc-start') while true do end end})\nend)\nlog(ctx.status)\n", "",
+     ["l:gc-start", "rel:u", "l:killed", "close"]),
     ("nested-ctx", "runtime.callcontext({kill={cpu=100000}}, function()\n a = setmetatable({}, gcmt('a'))\n runtime.callcontext({kill={cpu=10000}}, function() b = mkud('b', gcmt('b')) end)\n log('mid')\nend)\nlog('out')\n", "",
      ["gc:b", "rel:b", "l:mid", "gc:a", "l:out", "close"]),
 ]
@@ -358,7 +479,11 @@ def parse_lua_out(line):
 def run(tier, seed):
     ck = vlib.Check("C18", tier, seed, level="proof")
     ok_obl = ck.obligations(PROP, clean=False)
-    gvh, err = ck.build_gvh(pkg="./cmd/gvh-gc", name="gvh-gc_verif")
+    if tier == "thorough" and ok_obl:
+        if not ck.coqchk(["GV.Properties.C18"]):
+            ok_obl = False
+            ck.cov["obligation_failure"] = "coqchk rejects Properties/C18.vo: " + str(ck.cov.get("coqchk", {}).get("tail", ""))[-300:]
+    gvh, err = ck.build_gvh(pkg="./cmd/gvh-gc", name="gvh-gc_verif", overlay=os.environ.get("VERIF_OVERLAY"))
     if gvh is None:
         ck.violation("gc harness does not build against /repo", {"kind": "build", "stderr": err[-3000:]}, no_input=True)
         return ck.finish("n/a", TRUSTED, [])
@@ -387,8 +512,8 @@ def run(tier, seed):
         for h in itertools.product(alpha, repeat=d):
             cases.append(("enum", list(h)))
             nenum += 1
-    nfree = 20000 if tier == "quick" else 300000
-    nworld = 20000 if tier == "quick" else 300000
+    nfree = 20000 if tier == "quick" else 600000
+    nworld = 40000 if tier == "quick" else 1200000
     for _ in range(nfree):
         cases.append(("free", rand_free(rng)))
     for _ in range(nworld):
@@ -427,9 +552,15 @@ def run(tier, seed):
             if fails:
                 pred_fail += 1
                 if pred_fail <= 3:
-                    ck.violation("finaliser property fails on the implementation: " + fails[0],
-                                 {"kind": "Go!=S", "engine": "gc/pool", "history": hist_str(ops), "impl": impl[i],
-                                  "failed_predicates": fails, "theorems": THEOREMS})
+                    def still(cand):
+                        r, out, _ = vlib.run_lines(gvh, ["pool"], ["x " + hist_str(pool_ops(cand))], timeout=60)
+                        return r == 0 and out and bool(world_predicates(cand, parse_pool_out(out[0])[0])[0])
+                    small = shrink_world(ops, still) if len(ops) <= 80 else ops
+                    r, out, _ = vlib.run_lines(gvh, ["pool"], ["x " + hist_str(pool_ops(small))], timeout=60)
+                    sf = world_predicates(small, parse_pool_out(out[0])[0])[0] if out else fails
+                    ck.violation("finaliser property fails on the implementation: " + (sf[0] if sf else fails[0]),
+                                 {"kind": "Go!=S", "engine": "gc/pool", "history": hist_str(small), "original_history": hist_str(ops),
+                                  "impl": out[0] if out else impl[i], "failed_predicates": sf or fails, "theorems": THEOREMS})
         if i < len(model) and impl[i] != model[i]:
             ndiff += 1
             if len(first_diffs) < 3:
@@ -447,11 +578,25 @@ def run(tier, seed):
         if 0 <= i < len(impl):
             ck.sample({"history": hist_str(cases[i][1]), "impl": impl[i].split(" ", 1)[1][:300]})
 
+    # ---------------- extraction cross-check: sampled histories re-evaluated inside Coq
+    nx = 40 if tier == "quick" else 600
+    picks = [rng.below(len(cases)) for _ in range(nx)] + [widx]
+    xs = []
+    for i in picks:
+        if i < len(impl) and len(cases[i][1]) <= 60:
+            xs.append((pool_ops(cases[i][1]), parse_pool_out(impl[i])[0]))
+    okx, xmsg = coq_crosscheck(ck, xs)
+    ck.cov["coq_crosscheck_cases"] = len(xs)
+    ck.cov["coq_crosscheck_ok"] = okx
+    if not okx and not ndiff:
+        ck.violation("extraction cross-check failed: the Coq model evaluated by vm_compute disagrees with the Go output on a sampled history "
+                     "although the extracted oracle agreed", {"kind": "trusted-base", "detail": xmsg}, no_input=True)
+
     # ---------------- Lua level
     lua_cases = []   # (id, name, src, opts, expect)
     for name, src, opts, expect in LUA_FIXED:
         lua_cases.append((name, src, opts, expect, "fixed"))
-    nlua = 400 if tier == "quick" else 6000
+    nlua = 1000 if tier == "quick" else 20000
     for j in range(nlua):
         src, expect = lua_program(rng)
         lua_cases.append(("gen%d" % j, src, "", expect, "generated"))
@@ -537,11 +682,40 @@ def run(tier, seed):
         ck.sample({"lua": lua_cases[len(LUA_FIXED)][1][:400], "expected": lua_cases[len(LUA_FIXED)][3][:12]})
 
     if ndiff and not pred_fail and not lua_fail:
+        # Go != IM while every property predicate held: search harder on the Go side alone before giving up
+        ck.log("%d correspondence differences; property-level search with a larger budget" % ndiff)
+        extra = [rand_world(rng) for _ in range(10 * nworld if tier == "quick" else 3 * nworld)]
+        xl = ["s%d %s" % (j, hist_str(pool_ops(o))) for j, o in enumerate(extra)]
+        r, xout, _ = vlib.run_lines(gvh, ["pool"], xl, timeout=3000)
+        for j, o in enumerate(extra):
+            if j >= len(xout):
+                break
+            f, kn = world_predicates(o, parse_pool_out(xout[j])[0])
+            if kn and kf is None:
+                f = f + kn
+            if f:
+                pred_fail += 1
+                def still2(cand):
+                    r2, out2, _ = vlib.run_lines(gvh, ["pool"], ["x " + hist_str(pool_ops(cand))], timeout=60)
+                    return r2 == 0 and out2 and bool(world_predicates(cand, parse_pool_out(out2[0])[0])[0])
+                small = shrink_world(o, still2) if len(o) <= 80 and not kn else o
+                ck.violation("finaliser property fails on the implementation: " + f[0],
+                             {"kind": "Go!=S", "engine": "gc/pool", "history": hist_str(small), "original_history": hist_str(o),
+                              "impl": xout[j], "failed_predicates": f, "theorems": THEOREMS})
+                break
+    if ndiff and not pred_fail and not lua_fail:
         i = first_diffs[0]
+        def differs(cand):
+            l = "x " + hist_str(cand)
+            r1, a, _ = vlib.run_lines(gvh, ["pool"], [l], timeout=60)
+            r2, b, _ = vlib.run_lines(oracle, [], [l], timeout=60)
+            return bool(a) and bool(b) and a[0] != b[0]
+        smallops = shrink_free(pool_ops(cases[i][1]), differs) if len(cases[i][1]) <= 80 else pool_ops(cases[i][1])
+        ck.cov["first_difference_shrunk"] = hist_str(smallops)
         ck.violation("implementation no longer matches the Coq model GC/ClonePool.v (Go≈IM/gc); no property-level failure found "
                      "in %d environment-valid histories and %d Lua programs" % (nworld, len(lua_cases)),
-                     {"kind": "Go!=IM", "correspondence": "Go≈IM/gc", "history": hist_str(cases[i][1]),
-                      "impl": impl[i], "model": model[i], "differences": ndiff,
+                     {"kind": "Go!=IM", "correspondence": "Go≈IM/gc", "history": hist_str(smallops),
+                      "original_history": hist_str(cases[i][1]), "impl": impl[i], "model": model[i], "differences": ndiff,
                       "theorems_no_longer_about_this_code": THEOREMS}, no_input=True)
     elif ndiff:
         ck.cov["note_correspondence"] = "%d Go≈IM differences accompany the property-level failures" % ndiff
@@ -570,7 +744,7 @@ def run(tier, seed):
 def replay(path, seed):
     r = json.load(open(path))
     ck = vlib.Check("C18", "quick", seed)
-    gvh, _ = ck.build_gvh(pkg="./cmd/gvh-gc", name="gvh-gc_verif")
+    gvh, _ = ck.build_gvh(pkg="./cmd/gvh-gc", name="gvh-gc_verif", overlay=os.environ.get("VERIF_OVERLAY"))
     if r.get("engine") == "gc/lua":
         out = vlib.run_lines_resilient(gvh, ["lua"], [lua_line("r", r["source"], r.get("options", ""))])
         print("impl    :", parse_lua_out(out[0]))
